@@ -22,7 +22,7 @@ pub struct Counting {
     /// read calls so far; the call with this number fails, once, with an injected I/O error
     pub reads: Rc<Cell<u64>>,
     pub fail_read: Rc<Cell<Option<u64>>>,
-    frame_left: u64,
+    frame: Option<(u64, u64)>,
 }
 impl Counting {
     pub fn new(data: Vec<u8>) -> Counting {
@@ -35,7 +35,7 @@ impl Counting {
             max_read: usize::MAX,
             reads: Rc::new(Cell::new(0)),
             fail_read: Rc::new(Cell::new(None)),
-            frame_left: u64::MAX,
+            frame: None,
         }
     }
     pub fn short(data: Vec<u8>, max_read: usize) -> Counting {
@@ -58,14 +58,12 @@ impl Read for Counting {
         self.bytes.set(self.bytes.get() + n as u64);
         if n > 0 {
             self.lowest.set(self.lowest.get().min(pos as u64));
-            if self.frame_left != u64::MAX {
-                let n = n as u64;
-                if n > self.frame_left {
-                    self.over.set(self.over.get() + (n - self.frame_left));
-                    self.frame_left = 0;
-                } else {
-                    self.frame_left -= n;
-                }
+            // bytes served outside the frame [start, end) that the last absolute seek designated (wherever the
+            // reads come from: continuing past the frame, or reading forward to the next block instead of seeking)
+            if let Some((fs, fe)) = self.frame {
+                let (a, b) = (pos as u64, (pos + n) as u64);
+                let inside = b.min(fe).saturating_sub(a.max(fs));
+                self.over.set(self.over.get() + (n as u64 - inside));
             }
         }
         Ok(n)
@@ -86,16 +84,20 @@ impl Seek for Counting {
             return Err(io::Error::new(io::ErrorKind::InvalidInput, "invalid seek to a negative or overflowing position"));
         }
         self.inner.set_position(new as u64);
-        // an absolute seek starts a block load: the frame there is its 8-byte length and that many bytes
-        self.frame_left = u64::MAX;
-        if let SeekFrom::Start(p) = pos {
-            let data = self.inner.get_ref();
-            let p = p as usize;
-            if p + 8 <= data.len() {
-                let mut l = [0u8; 8];
-                l.copy_from_slice(&data[p..p + 8]);
-                self.frame_left = 8u64.saturating_add(u64::from_be_bytes(l));
+        // an absolute seek starts a block load: the frame there is its 8-byte length and that many bytes; a seek
+        // relative to the end (the trailer, at open) is not a block load; a relative seek leaves the frame as it is
+        match pos {
+            SeekFrom::Start(p) => {
+                let data = self.inner.get_ref();
+                self.frame = None;
+                if (p as usize) + 8 <= data.len() {
+                    let mut l = [0u8; 8];
+                    l.copy_from_slice(&data[p as usize..p as usize + 8]);
+                    self.frame = Some((p, p.saturating_add(8).saturating_add(u64::from_be_bytes(l))));
+                }
             }
+            SeekFrom::End(_) => self.frame = None,
+            SeekFrom::Current(_) => {}
         }
         Ok(new as u64)
     }
